@@ -149,6 +149,24 @@ def _perm(seq, order):
     return seq[r:] + seq[:r]
 
 
+CFUNC_CLS = {"math.sin": "builtin", "math.cos": "builtin", "len": "builtin", "abs": "builtin", "np.add": "ufunc",
+             "np.multiply": "ufunc", "str.upper": "method_descriptor", "str.lower": "method_descriptor",
+             "itemgetter(0)": "itemgetter", "itemgetter(1)": "itemgetter"}
+_CFUNCS = {}
+
+
+def cfuncs():
+    """callables without Python-level state (Identity_Gen!CFuncs)"""
+    if not _CFUNCS:
+        import math
+        import operator
+        import numpy as np
+        _CFUNCS.update({"math.sin": math.sin, "math.cos": math.cos, "len": len, "abs": abs, "np.add": np.add,
+                        "np.multiply": np.multiply, "str.upper": str.upper, "str.lower": str.lower,
+                        "itemgetter(0)": operator.itemgetter(0), "itemgetter(1)": operator.itemgetter(1)})
+    return _CFUNCS
+
+
 def build(t, order=0, memo=None, files=None):
     """Materialise a term.  memo (dict) switches object sharing on: equal sub-terms become the
     *same* object.  files: directory in which "file" terms are created."""
@@ -216,6 +234,11 @@ def _build(t, order, memo, files):
             assert t["v"] == "fac_add" and name == "k"
             return fac_add(build(cell, order, memo, files))
         return FUNCS[t["v"]]
+    if k == "cfunc":
+        return cfuncs()[t["v"]]
+    if k == "partial":
+        import functools
+        return functools.partial(build(t["fn"], order, memo, files), *[build(x, order, memo, files) for x in t["v"]])
     if k == "obj":
         return CLASSES[t["cls"]](**{n: build(x, order, memo, files) for n, x in t["v"]})
     if k == "file":
@@ -266,6 +289,12 @@ def term_of(v):
     for name, (tp, origin, alias) in types_pool().items():
         if v is tp or (not isinstance(v, type) and type(tp) is type(v) and v == tp):
             return {"k": "type", "v": name, "origin": origin, "alias": alias}
+    import functools
+    for name, f in cfuncs().items():
+        if v is f or (type(v) is type(f) and type(v).__name__ == "itemgetter" and v.__reduce__() == f.__reduce__()):
+            return {"k": "cfunc", "cls": CFUNC_CLS[name], "v": name}
+    if isinstance(v, functools.partial):
+        return {"k": "partial", "fn": term_of(v.func), "v": [term_of(x) for x in v.args]}
     if callable(v) and getattr(v, "__name__", None) in FUNCS and FUNCS[v.__name__] is v:
         return {"k": "func", "v": v.__name__, "cells": []}
     if callable(v) and getattr(v, "__qualname__", "") == "fac_add.<locals>.add_k":
@@ -622,6 +651,8 @@ KNOWN_BY_SWITCH = {
                              "C08": "C08-shell-field-metadata"},
     "generic-alias-args": {"C06": "C06-generic-alias-args", "C07": "C07-generic-alias-args",
                            "C08": "C08-generic-alias-args"},
+    "stateless-objects-alike": {"C06": "C06-stateless-objects-alike", "C07": "C07-stateless-objects-alike",
+                                "C08": "C08-stateless-objects-alike"},
 }
 
 
